@@ -28,6 +28,7 @@ def check(ctx):
     # 3. value types that are a table
     abstypes.r18_join_aggregators(ctx)
     abstypes.r18_computed_field(ctx)
+    abstypes.r18_reuse_guard(ctx)
     abstypes.r17_isinstance_order(ctx, [ctx.repo.func('dataflows.helpers.iterable_loader:iterable_storage.field_type')])
     ft = ctx.repo.func('dataflows.helpers.iterable_loader:iterable_storage.field_type')
     want = {'str': 'string', 'bool': 'boolean', 'int': 'integer', '(float, decimal.Decimal)': 'number', 'list': 'array',
